@@ -29,6 +29,10 @@ class ArrEval:
     def __init__(self, it: Interp):
         self.it = it
         self.stores: Dict[Term, List] = {}
+        # path conditions under which the function's result is produced (e.g. "the first line was not empty"): a store guarded
+        # by nothing else is unconditional as far as the returned value is concerned
+        rets = [r for r in it.returns if r.data["value"] != NONE]
+        self.base_guards = set(rets[-1].guards) if rets else set()
         for ev in it.events:
             if ev.kind == "store" and ev.data["target"][0] == "sub":
                 self.stores.setdefault(ev.data["target"][1], []).append(ev)
@@ -249,7 +253,10 @@ class ArrEval:
                     hi = _ci(x[2]) if x[2] != NONE else None
                     if i is ROW:
                         sub_idx.append(ROW)
-                    elif lo is None or i < lo or (hi is not None and i >= hi):
+                    elif lo is None or (x[2] != NONE and hi is None) or x[3] != NONE:
+                        # symbolic slice bounds / a step: whether this store covers the entry is not known
+                        raise NoEntry(f"store with a symbolic slice may write the entry: {show(tg)[:50]}")
+                    elif i < lo or (hi is not None and i >= hi):
                         ok = False
                         break
                     else:
@@ -259,12 +266,14 @@ class ArrEval:
                         ok = False
                         break
                 else:
-                    # symbolic scalar index (generic loop iteration): matches the symbolic row
+                    # symbolic scalar index (generic loop iteration): matches the symbolic row; for a concrete entry it may or
+                    # may not be the one written - the entry is then unknown, never "still zero"
                     if i is not ROW:
-                        ok = False
-                        break
+                        raise NoEntry(f"store with a symbolic index may write the entry: {show(tg)[:50]}")
             if not ok:
                 continue
+            if [g for g in ev.guards if g not in self.base_guards]:
+                raise NoEntry(f"conditional store to the entry under {show(ev.guards[-1][0])[:50]}")
             sub_idx.extend(rest)
             v = ev.data["value"]
             vs = self.shape(v)
